@@ -111,6 +111,9 @@ def run_property(prop, tier='quick', fresh=None):
         print('CHECKER-BROKEN: rule engine raised %r' % (e,))
         return 2
 
+    if tier == 'thorough' and getattr(mod, 'WITNESSES', None):
+        run_witnesses(ctx, mod)
+
     floors = getattr(mod, 'FLOORS', {})
     counts = {}
     for i in ctx.insts:
@@ -159,6 +162,40 @@ def run_property(prop, tier='quick', fresh=None):
         prop, total, len(facts.bodies), good, len(known_hits), len(violations), tier, wall,
         'cached' if info.get('cached') else 'extracted'))
     return 1 if violations else 0
+
+
+def run_witnesses(ctx, mod):
+    """E3: compile_fail witnesses + compiling twins of the harness crate, built against the analysed tree.
+    Nothing is executed (twins are `no_run`)."""
+    import shutil
+    import subprocess
+    import tempfile
+    repo = os.path.realpath(engine.repo_dir())
+    src = os.path.join(VERIF, 'witness')
+    d = tempfile.mkdtemp(prefix='affwit-')
+    try:
+        shutil.copytree(os.path.join(src, 'src'), os.path.join(d, 'src'))
+        shutil.copytree(os.path.join(src, '.cargo'), os.path.join(d, '.cargo'))
+        shutil.copy(os.path.join(src, 'rust-toolchain.toml'), d)
+        toml = open(os.path.join(src, 'Cargo.toml')).read().replace('path = "/repo"', 'path = "%s"' % repo)
+        open(os.path.join(d, 'Cargo.toml'), 'w').write(toml)
+        if os.path.exists(os.path.join(repo, 'Cargo.lock')):
+            shutil.copy(os.path.join(repo, 'Cargo.lock'), os.path.join(d, 'Cargo.lock'))
+        env = dict(os.environ, CARGO_NET_OFFLINE='true', CARGO_TARGET_DIR=os.path.join(engine.CACHE, 'witness-tgt'))
+        env.pop('RUSTC_WORKSPACE_WRAPPER', None)
+        r = subprocess.run(['cargo', '+nightly', 'test', '--doc', '--offline'], cwd=d, env=env, stdout=subprocess.PIPE, stderr=subprocess.STDOUT, text=True)
+        out = r.stdout
+    finally:
+        shutil.rmtree(d, ignore_errors=True)
+    rule = ctx.prop + '.W'
+    for name in mod.WITNESSES:
+        fails = re.findall(r'test src/lib.rs - %s \(line \d+\) - compile fail \.\.\. (\w+)' % re.escape(name), out)
+        twins = re.findall(r'test src/lib.rs - %s \(line \d+\) - compile \.\.\. (\w+)' % re.escape(name), out)
+        if fails == ['ok'] and twins == ['ok']:
+            ctx.ok(rule, 'witness:' + name, 'the violating program is rejected by rustc with the expected error code; its twin (differing only in the offending line) compiles')
+        else:
+            ctx.bad(rule, 'witness:' + name, 'type-level witness no longer holds: compile_fail=%s twin=%s (a program violating the property now builds, or the witness is stale)' % (fails, twins),
+                    detail=out[-1500:])
 
 
 def write_evidence(mod, ctx, prop, tier, seed, wall, info, violations, known_hits, counts):
